@@ -506,7 +506,8 @@ func formatString(w io.Writer, s String, opt OutputOptions) error {
 	pretty := opt.HasAny(OptPretty)
 	if wenc, ok := w.(*posWriter); ok {
 		if wenc.enc != nil {
-			enc, err := wenc.enc.EncryptBytes(wenc.ref, l)
+			// EncryptBytes may encrypt in place: do not modify the caller's String
+			enc, err := wenc.enc.EncryptBytes(wenc.ref, append([]byte(nil), l...))
 			if err != nil {
 				return err
 			}
